@@ -406,4 +406,34 @@ def dictFreeList : List Val → Bool
   | v :: vs => Val.dictFree v && dictFreeList vs
 end
 
+/-! ## dictionary keys (what `DictionaryValue` guarantees about its entries) -/
+
+/-- no two entries have equal keys (`Insert` / `SetKey` replace the entry of an equal key) -/
+def distinctKeys : List (Val × Val) → Bool
+  | [] => true
+  | (k, _) :: es => es.all (fun e => !eq k e.1) && distinctKeys es
+
+mutual
+/-- every dictionary inside has hashable (`HashableValue`) and pairwise unequal keys -/
+def Val.keysOK : Val → Bool
+  | .some v => Val.keysOK v
+  | .arr _ vs => keysOKList vs
+  | .dict _ es => keysOKEntries es && distinctKeys es
+  | _ => true
+def keysOKList : List Val → Bool
+  | [] => true
+  | v :: vs => Val.keysOK v && keysOKList vs
+def keysOKEntries : List (Val × Val) → Bool
+  | [] => true
+  | (k, v) :: es => (hashInput k).isSome && Val.keysOK v && keysOKEntries es
+end
+
+/-- the type ID of an enum is printable and contains no space (identifier characters and `.`): every
+byte is above 0x20.  `CompositeValue.HashInput` concatenates tag, type ID and the raw value's hash
+input *without a length prefix*; the boundary is recognisable because the raw value's tag byte
+(an integer kind: 10 … 32) cannot occur inside the ID. -/
+def Val.idPrintable : Val → Bool
+  | .enum tid _ _ => tid.all (fun c => decide (0x20 < c.toNat))
+  | _ => true
+
 end Verif.Model.Val
